@@ -16,7 +16,7 @@ from .prov import var_table
 
 RULE = 'INSETLABEL'
 FLOOR = 5
-ANCHORS = ['SimulationEngine::split', 'SimulationEngine::processRemove', 'SimulationEngine::init']
+ANCHORS = ['SimulationEngine::split', 'SimulationEngine::init']   # processRemove's pairings move into a helper under extraction (refactor/E-1)
 
 
 def block_var(e):
